@@ -135,7 +135,16 @@ C17_LOOKUP = ("let m: HashMap<{K}, {V}> = HashMap::new(); let g = m.guard(); let
               "let _ = m.get(&k, &g); let _ = m.get_key_value(&k, &g); let _ = m.contains_key(&k, &g); "
               "let _ = m.iter(&g).count(); let _ = m.keys(&g).count(); let _ = m.values(&g).count(); "
               "let _ = m.len(); let _ = m.is_empty(); let p = m.pin(); let _ = p.get(&k); let _ = p.iter().count(); "
-              "let s: HashSet<{K}> = HashSet::new(); let sg = s.guard(); let _ = s.contains(&k, &sg); let _ = s.iter(&sg).count();")
+              "let s: HashSet<{K}> = HashSet::new(); let sg = s.guard(); let _ = s.contains(&k, &sg); let _ = s.iter(&sg).count(); "
+              # every other read-only entry point, through both facades
+              "let _ = p.get_key_value(&k); let _ = p.contains_key(&k); let _ = p.keys().count(); let _ = p.values().count(); "
+              "let _ = p.len(); let _ = p.is_empty(); let w = m.with_guard(&g); let _ = w.get(&k); let _ = w.iter().count(); "
+              "let _ = s.get(&k, &sg); let _ = s.len(); let _ = s.is_empty(); "
+              "let s2: HashSet<{K}> = HashSet::new(); let sg2 = s2.guard(); "
+              "let _ = s.is_disjoint(&s2, &sg, &sg2); let _ = s.is_subset(&s2, &sg, &sg2); let _ = s.is_superset(&s2, &sg, &sg2); "
+              "let sp = s.pin(); let sp2 = s2.pin(); let _ = sp.contains(&k); let _ = sp.get(&k); let _ = sp.iter().count(); "
+              "let _ = sp.len(); let _ = sp.is_empty(); "
+              "let _ = sp.is_disjoint(&sp2); let _ = sp.is_subset(&sp2); let _ = sp.is_superset(&sp2);")
 
 
 def c17_programs():
